@@ -42,14 +42,15 @@ def rule_label(ctx):
     wt_outer = p.module_funcs.get(("common.py", "_with_timeout"))
     if wt_outer is None:
         raise AnalysisError("anchor=common._with_timeout not found")
-    wt = p.nested(wt_outer, "wrapper")
+    wt_deco, wt = p.decorator_factory_parts(wt_outer)
+    wrapped = wt_deco.args.args[-1].arg if wt_deco.args.args else "f"
     wf = [c for c in walk_no_nested(wt) if isinstance(c, ast.Call) and (dotted(c.func) or "").endswith("wait_for")]
     ok = len(wf) == 1 and len(wf[0].args) >= 2
     if ok:
         t = expand(p, wf[0].args[1], wt)
         ok = isinstance(t, ast.Call) and isinstance(t.func, ast.Name) and t.func.id == "getattr" and len(t.args) == 2 and src(t.args[0]) == wt.args.args[0].arg and src(t.args[1]) == wt_outer.args.args[0].arg
         inner = expand(p, wf[0].args[0], wt)
-        ok = ok and isinstance(inner, ast.Call) and isinstance(inner.func, ast.Name) and inner.func.id == "f"
+        ok = ok and isinstance(inner, ast.Call) and isinstance(inner.func, ast.Name) and inner.func.id == wrapped
         ok = ok and isinstance(p.parent.get(wf[0]), (ast.Await, ast.Return)) and not any(isinstance(q, (ast.For, ast.While, ast.Try)) for q in _anc(p, wf[0], wt))
     ctx.ob("C16.LABEL", wt, "with_timeout: await wait_for(f(...), getattr(instance, <name>)) - once, not re-armed, not swallowed", ok,
            "with_timeout no longer bounds the call by the named timeout attribute of the instance (or retries / swallows the timeout)", construct="with_timeout:timeout source")
